@@ -3,7 +3,7 @@
 use super::*;
 use crate::op::verif_support::*;
 
-//@h {"id":"C13.K.noop.identity","props":["C13","C10","C01","C09"],"tier":"quick","kind":"complete","timeout":600,"text":"noop (and its aliases longlat/latlon/latlong/lonlat, which map to the same constructor) leaves all data bit-identical in both directions and counts every tuple; two tuples, all f64 bits"}
+//@h {"id":"C13.K.noop.identity","props":["C13","C10","C01","C09"],"tier":"quick","kind":"complete","timeout":1800,"text":"noop (and its aliases longlat/latlon/latlong/lonlat, which map to the same constructor) leaves all data bit-identical in both directions and counts every tuple; two tuples, all f64 bits"}
 #[kani::proof]
 #[kani::unwind(6)]
 fn c13_noop_identity() {
